@@ -1,7 +1,7 @@
 """Translator anchors for fedjax/datasets/stackoverflow.py (C20): the tokenizer's
 reserved ids, the id offset of vocabulary words, the x / y shift and the defaults."""
 import ast
-from lib.c20tr import D, _T, _unsupported, zdef, _first_assign, A_classconsts, A_default
+from lib.c20tr import A_no_process_dependence, D, _T, _unsupported, zdef, _first_assign, A_classconsts, A_default
 
 SRC = 'fedjax/datasets/stackoverflow.py'
 
@@ -72,6 +72,7 @@ MODULES = {
             A_default('StackoverflowTokenizer.__init__', 'default_vocab_size', 'tok_default_vocab_size'),
             A_default('StackoverflowTokenizer.__init__', 'num_oov_buckets', 'tok_default_num_oov_buckets'),
             _token_to_ids,
+            A_no_process_dependence('stackoverflow_is_process_independent'),
         ],
     },
 }
